@@ -73,7 +73,12 @@ class FilterFactory:
                     tmp = mask.match(param)
                     if not tmp:
                         return None, 0, None
-                    return f_in(tmp.group()), tmp.end(), None
+                    try:
+                        value = f_in(tmp.group())
+                    except ValueError:
+                        # the converter rejects the text (int() of more digits than the interpreter converts)
+                        return None, 0, None
+                    return value, tmp.end(), None
         else:
             def handler(param):
                 tmp = mask.match(param)
